@@ -14,4 +14,6 @@ Definition config_actual : quirks :=
     "global_config_option_ignored"; "dry_config_option_merges_section_only";
     "wrong_type_swallowed";
     "language_block_error_retried_without_language"; "invalid_top_level_value_shadowed_by_language_block";
-    "thailint_json_is_not_a_root_marker" ].
+    "thailint_json_is_not_a_root_marker";
+    "language_block_value_not_validated[dry]"; "non_mapping_section_crashes[collection-pipeline]";
+    "non_mapping_language_block_crashes" ].
